@@ -64,12 +64,14 @@ def growth_siblings(ctx, F):
     b = ctx.need('AGREE-C40d', 'Memvid::ensure_wal_capacity')
     if a is None or b is None:
         return
+    from .c02 import growth_host
+    a, b = growth_host(F, a), growth_host(F, b)     # a tail shared through one private helper agrees with itself
     sa, sb = growth_steps(a), growth_steps(b)
     ctx.touch(a, len(a.blocks))
     ctx.touch(b, len(b.blocks))
     ctx.evaluations += len(sa) + len(sb)
     na, nb = [e[2] for e in sa], [e[2] for e in sb]
-    ctx.floor('AGREE-C40d', min(len(na), len(nb)), 7, 'growth steps per sibling')
+    ctx.floor('AGREE-C40d', min(len(na), len(nb)), 4, 'growth steps per sibling')
     if na == nb:
         ctx.ok('AGREE-C40d', b, 'same step sequence in both siblings: ' + ' -> '.join(na))
     else:
@@ -133,9 +135,15 @@ def run(ctx):
             for l in lits:
                 produced[l] = produced.get(l, False) or nospace
         matched = set()
-        for c in aw.calls():
-            if c.name in ('eq', 'ne') and len(c.args) == 2:
-                matched |= str_consts(aw, [(c.args[0], (c.bb, None)), (c.args[1], (c.bb, None))])
+        # the comparisons may sit in append_wal_entry or in a predicate helper it calls (`is_wal_out_of_space(&err)`)
+        hosts = [aw] + [F.fns[c.local_callee] for c in aw.calls() if c.local_callee in F.fns and not F.fns[c.local_callee].is_closure
+                        and F.fns[c.local_callee].local_ty(0) == 'bool']
+        for h in hosts:
+            if h is not aw:
+                ctx.touch(h, len(h.blocks))
+            for c in h.calls():
+                if c.name in ('eq', 'ne') and len(c.args) == 2:
+                    matched |= str_consts(h, [(c.args[0], (c.bb, None)), (c.args[1], (c.bb, None))])
         nospace = {l for l, ns in produced.items() if ns}
         ctx.evaluations += len(produced) + len(matched)
         ctx.floor('AGREE-C40b', len(nospace), 2, 'no-space rejection reasons produced by EmbeddedWal::append_entry')
